@@ -49,10 +49,33 @@ Theorem c07_genesis_reward_on_schedule :
   ee_primary_reward genesis_epoch_ext = primary_epoch_reward default_params (ee_number genesis_epoch_ext).
 Proof. exact genesis_reward_on_schedule. Qed.
 
-(* finding: the schedule panics from the 64th halving on (epoch 560640 with the
-   default constants, representable in the 24-bit epoch number) *)
-Theorem c07_halving_64_refuted : exists n, n < 2 ^ 24 /\ primary_epoch_reward default_params n = None.
-Proof. exact primary_epoch_reward_64_halvings_refuted. Qed.
+(* finding, repaired by fix: commit 2ebd8bf in /repo: the schedule as it was
+   ([initial >> halvings] on a u64) panicked from the 64th halving on (epoch
+   560640 with the default constants, representable in the 24-bit epoch number) *)
+Theorem c07_halving_64_refuted : exists n, n < 2 ^ 24 /\ primary_epoch_reward_old default_params n = None.
+Proof. exact primary_epoch_reward_old_64_halvings_refuted. Qed.
+
+(* the repaired schedule is total for every epoch number (non-zero interval),
+   never issues more than the initial reward, agrees with the old arithmetic
+   wherever that was defined, and issues nothing from the 64th halving on *)
+Theorem c07_primary_epoch_reward_total : forall P n,
+  0 < p_halving_interval P -> exists r, primary_epoch_reward P n = Some r /\ r <= p_initial_primary_epoch_reward P.
+Proof. exact primary_epoch_reward_total. Qed.
+
+Theorem c07_primary_epoch_reward_agrees_with_old : forall P n r,
+  primary_epoch_reward_old P n = Some r -> primary_epoch_reward P n = Some r.
+Proof. exact primary_epoch_reward_agrees_with_old. Qed.
+
+Theorem c07_halving_after_64 : forall P n,
+  0 < p_halving_interval P -> 64 * p_halving_interval P <= n ->
+  primary_epoch_reward P n = Some 0.
+Proof. exact halving_after_64. Qed.
+
+Theorem c07_primary_epoch_reward_fixed_on_witness :
+  primary_epoch_reward default_params (64 * DEFAULT_PRIMARY_EPOCH_REWARD_HALVING_INTERVAL) = Some 0 /\
+  primary_epoch_reward default_params (47 * DEFAULT_PRIMARY_EPOCH_REWARD_HALVING_INTERVAL) = Some 1 /\
+  primary_epoch_reward default_params (2 ^ 64 - 1) = Some 0.
+Proof. exact primary_epoch_reward_fixed_on_witness. Qed.
 
 (* ---- the clamps -------------------------------------------------------------------- *)
 Theorem c07_bounding_epoch_length : forall P len last r b,
@@ -360,6 +383,10 @@ Redirect "out/C07.c07_halving_on_schedule" Print Assumptions c07_halving_on_sche
 Redirect "out/C07.c07_next_reward_on_schedule" Print Assumptions c07_next_reward_on_schedule.
 Redirect "out/C07.c07_genesis_reward_on_schedule" Print Assumptions c07_genesis_reward_on_schedule.
 Redirect "out/C07.c07_halving_64_refuted" Print Assumptions c07_halving_64_refuted.
+Redirect "out/C07.c07_primary_epoch_reward_total" Print Assumptions c07_primary_epoch_reward_total.
+Redirect "out/C07.c07_primary_epoch_reward_agrees_with_old" Print Assumptions c07_primary_epoch_reward_agrees_with_old.
+Redirect "out/C07.c07_halving_after_64" Print Assumptions c07_halving_after_64.
+Redirect "out/C07.c07_primary_epoch_reward_fixed_on_witness" Print Assumptions c07_primary_epoch_reward_fixed_on_witness.
 Redirect "out/C07.c07_bounding_epoch_length" Print Assumptions c07_bounding_epoch_length.
 Redirect "out/C07.c07_bounding_hash_rate" Print Assumptions c07_bounding_hash_rate.
 Redirect "out/C07.c07_enf_fields_roundtrip" Print Assumptions c07_enf_fields_roundtrip.
